@@ -562,6 +562,9 @@ def c06_unary(pairs):
         st.inc('transitions')
         if op == 'nan-variant' or op is None:
             continue
+        if resp != exp and op.startswith('const:'):
+            st.violate(Violation('C06', 'num', 'num:' + op, {'kind': 'num_const', 'op': op}, exp, resp))
+            continue
         if resp != exp and op.startswith('nan-operand'):
             st.violate(Violation('C06', 'num', 'num:nan-operand', {'kind': 'nan_operand', 'what': str(a)},
                                  exp, resp))
@@ -1114,17 +1117,35 @@ def replay(case):
         a = loadn(0, case['a'])
         b = loadn(1, case['b'])
         e = R.n_add(a, b) if case['op'] == 'add' else R.n_mul(a, b)
-        sh.call('num', 'nop', case['op'], 0, 1, 2)
+        first = sh.call('num', 'nop', case['op'], 0, 1, 2)
+        obs = case.get('observer')
+        if obs == 'nop':
+            return '%d %d 1' % (1 if (e is not None and e >= 0) else 0, 1 if e is None else 0), first
+        if obs == 'nchk' and e is not None:
+            return _nchk_expect(e), sh.call('num', 'nchk', 2, *spellings(e))
+        if obs == 'nrt':
+            return 'see: text round trip inside the closure (re-run the check)', ''
         return exp_num_obs(e), sh.call('num', 'nobs', 2)
     if k in ('num_unary', 'num_closure'):
         a = loadn(0, case['a'])
-        op = case['op'].split(':')[0]
-        if op in ('neg', 'minus', 'flip'):
+        parts = case['op'].split(':')
+        op, how = parts[0], (parts[1] if len(parts) > 1 else '')
+        if k == 'num_closure':
+            how = {'nchk': 'eq', 'obs': '', 'nop': ''}.get(case.get('observer'), 'unknown')
+        if op in ('neg', 'minus', 'flip') and how in ('', 'eq', 'twice'):
             e = R.n_neg(a) if op != 'flip' else R.n_flip(a)
-            return exp_num_obs(e), sh.call('num', 'nun', op, 0, 1)
+            first = sh.call('num', 'nun', op, 0, 1)
+            if how == 'eq' and e is not None:
+                return _nchk_expect(e), sh.call('num', 'nchk', 1, *spellings(e))
+            if how == 'twice':
+                e2 = R.n_neg(e) if op != 'flip' else R.n_flip(e)
+                return exp_num_obs(e2), sh.call('num', 'nun', op, 1, 2)
+            return exp_num_obs(e), first
         if op == 'floor':
             return exp_big_obs(R.floor_nonneg(a)), sh.call('num', 'nfloor', 0)
-        return exp_num_obs(a), sh.call('num', 'nobs', 0)
+        if op == 'obs':
+            return exp_num_obs(a), sh.call('num', 'nobs', 0)
+        return 'see: this observer is not replayed on its own (%s)' % case['op'], ''
     if k == 'num_cmp':
         a = loadn(0, case['a'])
         b = loadn(1, case['b'])
@@ -1142,6 +1163,12 @@ def replay(case):
     if k == 'big_from_string':
         v = int(case['value'])
         return exp_big_obs(v), sh.call('num', 'bstr', 0, case['base'], R.to_base(v, case['base']))
+    if k == 'num_const':
+        st = c06_unary(rat_alphabet('quick'))
+        for v in st.violations:
+            if v.case.get('kind') == 'num_const' and v.case.get('op') == case.get('op'):
+                return v.expected, v.observed
+        return 'constant as defined', 'constant as defined'
     if k == 'nan_operand':
         st = c06_unary(rat_alphabet('quick'))
         for v in st.violations:
